@@ -889,6 +889,18 @@ pub fn kinds_for(target: Target) -> Vec<DocSpec> {
             d("type-early", "[1, 2]\n"),
             d("empty-map", "{}\n"),
         ],
+        Target::LenientVec | Target::LenientJsonVec => vec![
+            d("valid-a", "[1, 2]\n"),
+            d("valid-b", "- 3\n- oops\n- 5\n"),
+            d("nested-swallowed", "- [1, 2]\n- 7\n"),
+            // a syntax error inside an element: the element swallows it, the document and the stream are broken
+            // all the same
+            d("syntax-swallowed-handle", "- - !e!x\n    - 1\n  - 2\n- 7\n"),
+            d("syntax-swallowed-flow", "- [1, !e!x 2]\n- 7\n"),
+            d("anchors", "- &x 7\n- *x\n"),
+            DocSpec { alias_of_earlier: true, ..d("alias-earlier", "- *x\n") },
+            d("type-map-root", "a: 1\n"),
+        ],
         Target::UntilX => vec![
             d("valid-a", "a: 0\nx: 1\n"),
             d("valid-b", "{x: 1}\n"),
@@ -966,7 +978,9 @@ pub fn kinds_for(target: Target) -> Vec<DocSpec> {
     v
 }
 
-pub const TARGETS: [Target; 13] = [
+pub const TARGETS: [Target; 15] = [
+    Target::LenientJsonVec,
+    Target::LenientVec,
     Target::GreedyMap,
     Target::UntilX,
     Target::Cfg,
